@@ -226,6 +226,31 @@ def step (f : Facts) (m : OvMode) (s : State) (op : Op) : State × Ret :=
   | .replayFrom off => (s, .chunks (replayFrom s.chunks off))
   | .setPeer p => ({ s with peer := some p }, .unit)
 
+/-! ### idle watchdog (`spawn_watchdog` / `watchdog_loop`) and its inputs
+
+Time is not modelled: whether `now - max(last_chunk_at, last_ack_at) >= idle_timeout` holds at a tick is the
+environment's boolean `idle`. What *is* modelled is which calls refresh which of the two time stamps, and what
+a watchdog visit can do to a transfer. -/
+
+/-- `(refreshes last_chunk_at, refreshes last_ack_at)` of one call, given what it returned. -/
+def stampEffect : Op → Ret → Bool × Bool
+  | _, .panic => (false, false)
+  | .recordSent _, _ => (true, false)
+  | .recordAck _ _, _ => (false, true)
+  | .advance _, _ => (true, true)
+  | .requestResume _ _ _, .resumeOk _ => (true, true)
+  | _, _ => (false, false)
+
+/-- the reason string the watchdog passes to `cancel` ("transfer idle"), as a reason token -/
+def idleReason : Nat := 1000000007
+
+/-- What the watchdog does with one transfer of its snapshot at one tick: `is_cancelled()` → skip; otherwise
+read the time stamps and, if the environment says the transfer is idle, call `cancel("transfer idle")`.
+These are separate lock regions of `TransferControl`, so the visit contributes this program (reads omitted:
+they change nothing) to the interleaving. `sawCancelled` is what its `is_cancelled()` read returned. -/
+def watchdogVisit (sawCancelled idle : Bool) : List Op :=
+  if sawCancelled then [] else if idle then [.cancel idleReason] else []
+
 /-- A history: the ops in the order the mutex serialised them. -/
 def run (f : Facts) (m : OvMode) (s : State) : List Op → State
   | [] => s
